@@ -125,6 +125,10 @@ func (reg *ResourceRegistry) downloadIndex(ctx context.Context, client *http.Cli
 		return fmt.Errorf("failed to parse index %s: %w", idx.Path, err)
 	}
 
+	// Update last seen release, as when loading the index from disk, so that an
+	// older index is not accepted afterwards.
+	idx.LastRelease = indexFile.Published
+
 	// Add index data to registry.
 	if len(indexFile.Releases) > 0 {
 		// Check if all resources are within the indexes' authority.
